@@ -75,8 +75,14 @@ def generate(seed, tier):
         else:
             runs.append({"epochs": epochs + e2, "starting_epoch": epochs + 1, "clear": r.random() < 0.4})
     kind, vals, spreads = gen_script(r, epochs + 16)
-    scale = max(1e-9, max(abs(v) for v in vals))
-    tol = r.choice([0.0, 1e-6, 1e-3 * scale, 0.05 * scale, 0.5 * scale, 1.0, 10.0, float("inf")])
+    unit = r.choice([1.0, 1.0, 1.0, 1e-6, 1e-17, 1e9])  # the monitored quantity may live in any units
+    vals = [v * unit for v in vals]
+    spreads = [sp * unit for sp in spreads]
+    scale = max(1e-300, max(abs(v) for v in vals))
+    if crit == "absolute":
+        tol = r.choice([0.0, 1e-6 * scale, 1e-3 * scale, 0.05 * scale, 0.5 * scale, 2.0 * scale, float("inf")])
+    else:  # relative / variance-scaled deviations are dimensionless
+        tol = r.choice([0.0, 1e-6, 1e-3, 0.05, 0.5, 1.0, 10.0, float("inf")])
     return {
         "property": PROP,
         "run_seed": seed,
